@@ -81,7 +81,7 @@ pub fn property() -> Property {
         exh_count: no_exh_count,
         exh_case: no_exh_case,
         bytes_case: None,
-        quick_cases: 100_000,
+        quick_cases: 300_000,
         thorough_cases: 2_000_000,
         max_tape: 8192,
     }
